@@ -25,6 +25,7 @@ mod proj_c13;
 mod proj_c16;
 mod proj_c20;
 mod slicelex;
+mod sliceparse;
 // the binary-private modules of slicec, compiled from the repository's current files
 #[path = "/repo/slicec/src/definition_types.rs"]
 #[allow(dead_code, unused_imports)]
@@ -119,6 +120,7 @@ fn run_case(engine: &str, f: &[&str]) -> CaseResult {
         ("files", ["tree", _fam, tree, argv, exp]) => files::run_tree(tree, argv, exp),
         ("compile", ["perm", _fam, opts, files, orders, exp]) => perm::run_perm(opts, files, orders, exp),
         ("compile", ["compile", _fam, proj, opts, files, exp]) => compile::run_compile(proj, opts, files, exp),
+        ("compile", ["parse", _fam, text, exp]) => sliceparse::run_parse(text, exp),
         ("slicelex", ["lex", _fam, text, exp]) => slicelex::run_lex(text, exp),
         ("slicelex", ["lexloc", _fam, text, exp]) => slicelex::run_lexloc(text, exp),
         ("options", ["spec", _fam, hx, exp]) => options::run_spec(hx, exp),
